@@ -20,23 +20,27 @@ var entityRepl = strings.NewReplacer("&gt;", ">", "&raquo;", "Â»", "&mdash;", "â
 var entityBack = strings.NewReplacer("&", "&amp;", ">", "&gt;", "Â»", "&raquo;", "â€”", "&mdash;", "Â·", "&middot;")
 
 type titleDoc struct {
-	TitleHTML string // as written in <title> (ASCII, entities)
-	T0        string // whitespace-normalised text of <title>
-	H1        string // text of the first <h1>, "" if none
-	H2        string
-	Markup    string // markup title, "" if none
-	MarkupSrc string
-	HasSep    bool
-	NonASCII  bool // the title has non-ASCII letters: delivered as a parsed tree
-	SVGTitle  bool // an inline <svg> with a <title> child precedes the content
-	OptOut    bool // the page carries the IE_RM_OFF tag: MarkupInfo supplies nothing
-	Spec      string
+	TitleHTML   string // as written in <title> (ASCII, entities)
+	T0          string // whitespace-normalised text of <title>
+	H1          string // text of the first <h1>, "" if none
+	H2          string
+	Markup      string // markup title, "" if none
+	MarkupSrc   string
+	HasSep      bool
+	NonASCII    bool // the title has non-ASCII letters: delivered as a parsed tree
+	TitleInBody bool // the <title> element ends up in the body
+	SVGTitle    bool // an inline <svg> with a <title> child precedes the content
+	OptOut      bool // the page carries the IE_RM_OFF tag: MarkupInfo supplies nothing
+	Spec        string
 }
 
 func (td *titleDoc) build(extraBlock string) string {
 	var sb strings.Builder
 	if td.TitleHTML == "" && td.SVGTitle {
 		// a page without <title>; the first element called "title" is the tooltip of an inline picture
+		sb.WriteString("<html><head>")
+	} else if td.TitleInBody {
+		// the <title> is not where it belongs: written in the body, or pushed there by stray content in front of the head
 		sb.WriteString("<html><head>")
 	} else {
 		sb.WriteString("<html><head><title>" + td.TitleHTML + "</title>")
@@ -51,6 +55,9 @@ func (td *titleDoc) build(extraBlock string) string {
 		sb.WriteString(`<meta name="title" content="` + td.Markup + `">`)
 	}
 	sb.WriteString("</head><body>")
+	if td.TitleInBody && !(td.TitleHTML == "" && td.SVGTitle) {
+		sb.WriteString("<title>" + td.TitleHTML + "</title>")
+	}
 	if td.SVGTitle {
 		sb.WriteString(`<svg width="20" height="20"><title>s1v s2v s3v s4v</title><circle r="5"></circle></svg>`)
 	}
@@ -128,6 +135,7 @@ func genTitle(r *RNG) *titleDoc {
 	}
 	td.TitleHTML = sb.String()
 	td.SVGTitle = r.Intn(6) == 0
+	td.TitleInBody = r.Intn(8) == 0
 	td.T0 = strings.Join(strings.Fields(entityRepl.Replace(td.TitleHTML)), " ")
 	mk := func(p string, n int) string {
 		var w []string
@@ -310,7 +318,11 @@ func runC15(c *Ctx, idx int) {
 			c.Inc("clause4_title_changed_by_rebuild(skipped)")
 		} else {
 			allowed := map[string]int{}
-			for _, b := range []string{td.H1, td.H2, T} {
+			bodyTitle := ""
+			if td.TitleInBody {
+				bodyTitle = td.T0 // a <title> element in the body is a block of the page like any other
+			}
+			for _, b := range []string{td.H1, td.H2, bodyTitle, T} {
 				if b == "" || b == T {
 					continue
 				}
